@@ -202,8 +202,14 @@ func (r *gatewayController) buildCanaryHeaderHttpRoutes(rules []gatewayv1beta1.H
 		if len(nonPathMatches) == 0 && len(newMatches) == 0 {
 			continue
 		}
-		for j := range canaryRule.Matches {
-			canaryRuleMatch := &canaryRule.Matches[j]
+		// a rule without matches accepts every request: combine the user's matches with one empty match,
+		// otherwise the canary rule would end up without matches and accept every request too
+		baseMatches := canaryRule.Matches
+		if len(baseMatches) == 0 {
+			baseMatches = []gatewayv1beta1.HTTPRouteMatch{{}}
+		}
+		for j := range baseMatches {
+			canaryRuleMatch := &baseMatches[j]
 			for k := range nonPathMatches {
 				canaryRuleMatchBase := *canaryRuleMatch
 				if len(nonPathMatches[k].Headers) > 0 {
